@@ -79,8 +79,14 @@ def run(pid, tier, ev=None, vd=None, finish=True):
             ki = next(i for i, x in enumerate(hist) if x[1] == "kill")
             victim = hist[ki][0]
             steps_before = sum(1 for x in hist[:ki] if x[0] == victim)
-            jobs.append({"prog": "putput", "program": hr.PROGRAMS["putput"], "order": [x[0] for x in hist if x[1] != "kill"],
-                         "kill": (victim, steps_before), "src": "tlc-kill"})
+            if len(jobs) % 2:
+                # by step count (the kill lands wherever the victim's n-th real call is) ...
+                jobs.append({"prog": "putput", "program": hr.PROGRAMS["putput"], "order": [x[0] for x in hist if x[1] != "kill"],
+                             "kill": (victim, steps_before), "src": "tlc-kill"})
+            else:
+                # ... or by action label: the victim dies exactly where the behaviour kills it, and the final tree is the model's
+                jobs.append({"prog": "putput", "program": hr.PROGRAMS["putput"], "order": [x[0] for x in hist if x[1] != "kill"],
+                             "labels": hist, "want_final": sc["final"], "src": "tlc-kill"})
         # the controller's own search
         nrand = 25 if tier == "quick" else 1500
         for prog, program in list(hr.EXTRA.items()) + list(hr.PROGRAMS.items()):
@@ -181,7 +187,7 @@ def run(pid, tier, ev=None, vd=None, finish=True):
         nconf = nrep = nrep_checked = 0
         for i, rc in enumerate(recs):
             if pid == "C03" and i not in accepted:
-                key = f"{rc['prog']}-" + "".join(str(s[0]) for s in rc["sched"])[:60] + (f"-kill{rc['kill']}" if rc["kill"] else "")
+                key = f"{rc['prog']}-" + "".join(str(s[0]) for s in rc["sched"])[:60] + (f"-kill{rc['kill']}" if rc["kill"] else "") + (f"-killed{rc['killed']}" if rc.get("killed") else "")
                 if i in relaxed_ok:
                     key = "list-snapshot-" + key
                 vd.violation(key, describe(rc, "no linearization of HubAtomic explains the replies and the final tree"
@@ -248,7 +254,7 @@ def run(pid, tier, ev=None, vd=None, finish=True):
                                    "replies_compared": nrep_checked, "reply_mismatches": nrep,
                                    "alignment": "by action label (server, pc) of the behaviour, not by step count"}
         ev.extra["executions"] = {"total": len(recs), "accepted_linearizable": len(accepted), "list_only_failures": len(relaxed_ok),
-                                  "controller_errors": len(errs), "with_kill": sum(1 for x in recs if x["kill"]),
+                                  "controller_errors": len(errs), "with_kill": sum(1 for x in recs if x["kill"] or x.get("killed")),
                                   "by_source": {s: sum(1 for j in jobs if j.get("src") == s) for s in ("tlc", "tlc-kill", "search")}}
         ev.add(evaluations=len(recs), traces_validated_against_impl=len(recs),
                distinct_nontrivial=len({(x["prog"], tuple(s[0] for s in x["sched"])) for x in recs if len({s[0] for s in x["sched"]}) > 1}),
